@@ -58,7 +58,7 @@ func init() { register(c02{}) }
 func (c02) ID() string    { return "C02" }
 func (c02) Level() string { return "exploration" }
 func (c02) Rule() string {
-	return "one case = one accepted configuration + 1..4 browser intents (origin: matching or near-miss of a pattern; method as the page wrote it; subset of a 10-name CORS-unsafe header universe incl. authorization; credentials include/omit; private-network target yes/no) + 0..3 in-flight alterations of Access-Control-Request-Headers within the documented tolerance; every intent is run four ways in the same simulated world (debug off/on x alterations off/on) as a full protocol run (preflight when Fetch requires one, then the actual request); distinct = distinct plan hash; non-trivial = at least one intent needed a preflight"
+	return "one case = one accepted configuration + 1..4 browser intents (origin: matching or near-miss of a pattern; method as the page wrote it; subset of a 10-name CORS-unsafe header universe incl. authorization; credentials include/omit; private-network target yes/no) + 0..3 in-flight alterations of Access-Control-Request-Headers within the documented tolerance; the debug-off and debug-on middlewares reach their state through one of five API routes (fresh, zero value+Reconfigure, via another configuration, through passthrough, via Reconfigure(Config())); every intent is run four ways in the same simulated world (debug off/on x alterations off/on) as a full protocol run (preflight when Fetch requires one, then the actual request); distinct = distinct plan hash; non-trivial = at least one intent needed a preflight"
 }
 func (c02) Budget(tier string) (int, time.Duration) {
 	if tier == "thorough" {
